@@ -281,7 +281,7 @@ def check_pauli(case):
 
 
 SUBS = [
-    Sub("double", double_st, check_double, quick=120, thorough=1600),
-    Sub("soc", soc_st, check_soc, quick=240, thorough=4000),
-    Sub("pauli", pauli_st, check_pauli, quick=400, thorough=6000),
+    Sub("double", double_st, check_double, quick=120, thorough=1600, budget_quick=75, budget_thorough=500),
+    Sub("soc", soc_st, check_soc, quick=240, thorough=4000, budget_quick=75, budget_thorough=500),
+    Sub("pauli", pauli_st, check_pauli, quick=400, thorough=6000, budget_quick=75, budget_thorough=500),
 ]
